@@ -117,6 +117,16 @@ Definition P_b (c : case) : bool :=
       && forallb (fun tu => let id' := v_id (snd tu) in
                             (cnt_lt id' ot <=? n)               (* most frequently reported *)
                             && (if cnt_lt id' ot =? n then slot_of_id id' <=? slot_of_id id else true)) ok
+      (* ... and not merely so far: a value used before the strategy's decision point (block root:
+         the soft timeout; attestation data: the hard timeout, its soft timeout decides nothing) is
+         the most frequently reported of ALL the acceptable answers given within the timeout --
+         stopping early is allowed only once the later answers cannot change the choice *)
+      && (if maj_final tp T ot
+          then forallb (fun tu => let id' := v_id (snd tu) in
+                                  (id' =? id)
+                                  || ((cnt_lt id' T <=? n)
+                                      && (if cnt_lt id' T =? n then slot_of_id id' <=? slot_of_id id else true))) ok
+          else true)
       && match tp with TMajRoot => soft_rule | _ => true end
   | (TMajAtt | TMajRoot) as tp, RErr =>
       let thr := match tp with TMajAtt => p_threshold pr | _ => 0 end in
@@ -152,10 +162,15 @@ Definition P (c : case) : Prop :=
       (exists p0 v, In p0 ps /\ gives_ok st pr p0 v /\ v_id v = id /\ pv_time p0 <= ot
          /\ (1 <= cnt st pr ps (fun x => (x <=? ot)%N) id)%Z
          /\ (maj_thr st pr <= cnt st pr ps (fun x => (x <=? ot)%N) id)%Z
-         /\ forall p1 v1, In p1 ps -> gives_ok st pr p1 v1 ->
+         /\ (forall p1 v1, In p1 ps -> gives_ok st pr p1 v1 ->
               (cnt st pr ps (fun x => (x <? ot)%N) (v_id v1) <= cnt st pr ps (fun x => (x <=? ot)%N) id)%Z
               /\ (cnt st pr ps (fun x => (x <? ot)%N) (v_id v1) = cnt st pr ps (fun x => (x <=? ot)%N) id
                   -> vslot pr v1 <= vslot pr v))
+         /\ (maj_final tp T ot = true ->
+             forall p1 v1, In p1 ps -> gives_ok st pr p1 v1 -> v_id v1 <> id ->
+              (cnt st pr ps (fun x => (x <? T)%N) (v_id v1) <= cnt st pr ps (fun x => (x <=? ot)%N) id)%Z
+              /\ (cnt st pr ps (fun x => (x <? T)%N) (v_id v1) = cnt st pr ps (fun x => (x <=? ot)%N) id
+                  -> vslot pr v1 <= vslot pr v)))
       /\ (tp = TMajRoot -> soft)
   | (TMajAtt | TMajRoot), RErr =>
       forall p1 v1, In p1 ps -> gives_ok st pr p1 v1 ->
